@@ -197,6 +197,9 @@ func (v SampleRateIndex) ToHz() int {
 		/* To avoid overflow by forbidden */
 		0,
 	}
+	if int(v) >= len(aacSR) {
+		return 0
+	}
 	return aacSR[v]
 }
 
